@@ -1,0 +1,5 @@
+//go:build !verif
+
+package gorm
+
+func verifPoint(point string, args ...interface{}) {}
